@@ -162,21 +162,22 @@ theorem C02_topic_shape (c : Ctx) (t : TopicNode)
 topics `<T>Request` / `<T>Reply` with roles `request` / `reply`, both with the implicit leading
 field `request` (`j5.messaging.v1.RequestMetadata`, required); upsert → role `upsert` with the
 implicit leading field `upsert` (`UpsertMetadata`, required); topic name `snake(T)` throughout. -/
-theorem C02_topic_roles (c : Ctx) (name : Str) (msgs reqs reps : List TopicMsg) (en : Str) (msg : TopicMsg) :
-    convTopic c { name := name, type := .publish msgs } =
-      acceptTopic c { name := name, msgs := msgs, topicName := toSnake name, role := .publish } ∧
-    convTopic c { name := name, type := .reqres reqs reps } =
-      acceptTopic c { name := name ++ b!"Request", msgs := reqs, topicName := toSnake name,
-                      role := .request, prepend := requestPrepend } ++
-      acceptTopic c { name := name ++ b!"Reply", msgs := reps, topicName := toSnake name,
-                      role := .reply, prepend := requestPrepend } ∧
-    convTopic c { name := name, type := .upsert en msg } =
-      acceptTopic c { name := name, msgs := [{ msg with name := some (msg.name.getD name) }],
-                      topicName := toSnake name, role := .upsert, entityName := en,
-                      prepend := upsertPrepend } ∧
+theorem C02_topic_roles (name : Str) (msgs reqs reps : List TopicMsg) (en : Str) (msg : TopicMsg) :
+    topicNodes { name := name, type := .publish msgs } =
+      [{ name := name, msgs := msgs, topicName := toSnake name, role := .publish }] ∧
+    topicNodes { name := name, type := .reqres reqs reps } =
+      [ { name := name ++ b!"Request", msgs := reqs, topicName := toSnake name,
+          role := .request, prepend := requestPrepend },
+        { name := name ++ b!"Reply", msgs := reps, topicName := toSnake name,
+          role := .reply, prepend := requestPrepend } ] ∧
+    topicNodes { name := name, type := .upsert en msg } =
+      [{ name := name, msgs := [{ msg with name := some (msg.name.getD name) }],
+         topicName := toSnake name, role := .upsert, entityName := en,
+         prepend := upsertPrepend }] ∧
     requestPrepend = [.mk b!"request" true false (.objectRef b!"j5.messaging.v1" b!"RequestMetadata" false [])] ∧
-    upsertPrepend = [.mk b!"upsert" true false (.objectRef b!"j5.messaging.v1" b!"UpsertMetadata" false [])] :=
-  ⟨rfl, rfl, rfl, rfl, rfl⟩
+    upsertPrepend = [.mk b!"upsert" true false (.objectRef b!"j5.messaging.v1" b!"UpsertMetadata" false [])] ∧
+    ∀ (c : Ctx) (t : Topic), convTopic c t = (topicNodes t).flatMap (acceptTopic c) :=
+  ⟨rfl, rfl, rfl, rfl, rfl, fun _ _ => rfl⟩
 
 /-! ## Non-vacuity -/
 
